@@ -23,3 +23,18 @@ def c10_string_output(case, what):
                 and not ({"constant", "parameter", "input"} & set(p))):
             return True
     return False
+
+
+@known_predicate
+def c10_index_shadow(case, what):
+    """C10-F2: a model variable has the name of a for-loop index and der() is applied *inside that loop* to something
+    subscripted by the index (`Real i; for i in 1:2 loop der(v[i]) = ...`): StateAnnotator looks the index up as a model
+    variable and marks the variable `i` as a state although it is not differentiated."""
+    if case.get("kind") == "text":
+        hit = bool(case["desc"].get("shadow_der_in_loop"))
+    elif case.get("kind") in ("ast", "annot"):
+        from harness.props import c10
+        hit = bool(c10.desc_of_ast_spec(case["spec"]).get("shadow_der_in_loop"))
+    else:
+        hit = False
+    return hit and ("differs from" in what or "differ from" in what)
